@@ -1,6 +1,6 @@
 """C05 — models documented by a closed-form expression return that expression (structural parts)."""
 from .. import facts, run
-from ..rules import sib, models
+from ..rules import dep, sib, models
 
 
 def main(tier):
@@ -11,6 +11,7 @@ def main(tier):
     models.operation_discipline(P, rep)
     models.range_guard(P, rep)
     models.sentinels(P, rep)
+    dep.surface_pairing(P, rep)
     models.formulas(P, rep, thorough=(tier == "thorough"))
     rep.assumptions.append("Chapman geotherm, mass-conserving slab and tian2019 parameterisations have no independent closed form short "
                            "enough to serve as an oracle: not decided; numerical accuracy not decided")
